@@ -50,6 +50,35 @@ Theorem C03_no_usable_secret_never_authenticated :
 Proof. intros hmac. exact (no_usable_secret_never_authenticated hmac MaxFailures PermanentBanAt). Qed.
 Print Assumptions C03_no_usable_secret_never_authenticated.
 
+(* the authentication gate is a function of exactly the record fields the property names — the stored credential and
+   "ExpiresAt set and in the past" — and of nothing else in the client record (UserID / bound to a user or not, Type, Name,
+   legacy SecretKey, version, timestamps = meta): two server states whose client records differ only in those other
+   fields get the same response and the same ControlConnection from HandleHandshake, and stay so related. *)
+Theorem C03_gate_ignores_non_gate_fields :
+  forall hmac keep s s' c a m, same_gate s s' ->
+  let '(s1, c1, r) := auth hmac MaxFailures PermanentBanAt keep s c a m in
+  let '(s1', c1', r') := auth hmac MaxFailures PermanentBanAt keep s' c a m in
+  c1 = c1' /\ r = r' /\ same_gate s1 s1'.
+Proof. intros hmac. exact (auth_ignores_meta hmac MaxFailures PermanentBanAt). Qed.
+Print Assumptions C03_gate_ignores_non_gate_fields.
+
+(* ... and rewriting only such fields of a record (binding it to a user, changing its type) produces a state related in
+   that way; in particular an expired record stays refused (C03_unknown_or_expired_never_authenticated reads only [expired]) *)
+Theorem C03_rewriting_non_gate_fields_is_invisible :
+  forall hmac v s x m cl, clients s x = Some cl ->
+  same_gate s (fst (step hmac MaxFailures PermanentBanAt v s (ESetRecord x (expired cl) m))).
+Proof. intros hmac. exact (set_meta_same_gate hmac MaxFailures PermanentBanAt). Qed.
+Print Assumptions C03_rewriting_non_gate_fields_is_invisible.
+
+(* the asynchronous removal of an expired ban (unbanIfExpired, spawned by IsBanned) and a short ban that runs out are events
+   of every history above; neither changes the state: a ban in force is never lifted by them, so C03_gated keeps applying *)
+Theorem C03_async_unban_is_inert :
+  forall hmac v s a,
+  fst (step hmac MaxFailures PermanentBanAt v s (EUnbanLands a)) = s /\
+  fst (step hmac MaxFailures PermanentBanAt v s (EBanLapse a)) = s.
+Proof. intros hmac. exact (async_unban_is_inert hmac MaxFailures PermanentBanAt). Qed.
+Print Assumptions C03_async_unban_is_inert.
+
 (* (3) a handshake message whose outcome is not Success (failed, replayed, out of order, malformed, phase 1)
    leaves "who is authenticated as whom" of EVERY connection, the whole registry and the client table unchanged *)
 Theorem C03_failure_is_inert :
